@@ -433,6 +433,39 @@ def p6(ctx, res):
                   reason="every property object taken from the inherited mapping passes through .clone() before it "
                          "is stored on the new class")
     res.floor("inherited_property_sources", n_sources, 1)
+    # precedence among ancestors: an attribute lookup on the class follows the MRO (the nearest ancestor's merged mapping
+    # wins); an explicit walk over the MRO merges in the order it is written
+    from .norm import view as _view
+    vb = _view(new, ctx.prog).body
+    walks = 0
+    for n in walk_own(vb):
+        its = []
+        if isinstance(n, ast.For):
+            its.append((n.iter, n.body))
+        elif isinstance(n, (ast.DictComp, ast.ListComp, ast.GeneratorExp, ast.SetComp)):
+            for g_ in n.generators:
+                its.append((g_.iter, [n]))
+        for it, body in its:
+            txt = norm(it)
+            if not ("__mro__" in txt or ".mro()" in txt or "__bases__" in txt or txt == new.params[2].name):
+                continue
+            if not any(isinstance(x, ast.Attribute) and x.attr == "properties" for b_ in body for x in ast.walk(b_)):
+                continue
+            walks += 1
+            backwards = isinstance(it, ast.Call) and dotted(it.func) == "reversed" or \
+                (isinstance(it, ast.Subscript) and isinstance(it.slice, ast.Slice) and it.slice.step is not None
+                 and norm(it.slice.step) == "-1")
+            last_wins = any(isinstance(x, ast.Call) and isinstance(x.func, ast.Attribute) and x.func.attr == "update" for b_ in body for x in ast.walk(b_)) \
+                or any(isinstance(x, ast.Assign) and any(isinstance(t, ast.Subscript) for t in x.targets) for b_ in body for x in ast.walk(b_)) \
+                or isinstance(n, ast.DictComp)
+            first_wins = any(isinstance(x, ast.Call) and isinstance(x.func, ast.Attribute) and x.func.attr == "setdefault" for b_ in body for x in ast.walk(b_))
+            if last_wins and not first_wins:
+                res.judge(True if backwards else False, new, f"ancestors walked as {txt[:60]}",
+                          reason="ancestors are merged nearest-first with later entries overwriting earlier ones: the FARTHEST "
+                                 "ancestor's declaration of a property wins over an intermediate override")
+            else:
+                res.judge(None, new, f"ancestors walked as {txt[:60]}")
+    res.stat("explicit_ancestor_walks", walks)
     clone = ctx.func("_Property.clone")
     ef = _effects(ctx)
     res.check(ef.ret[clone].own == frozenset({F}), clone, "return value of _Property.clone",
